@@ -168,6 +168,7 @@ inline std::string tieProneSibling(const std::string& base, Rng& r) {
 		std::string s = base;
 		static const char C[] = {'[', '\\', ']', '^', '_', '`'};
 		s[at[r.below(at.size())]] = C[r.below(6)];
+		if (s[0] == '_') s[0] = '^'; // harness-owned paths start with '_'
 		return s;
 	}
 	case 0: { size_t dot = base.rfind('.'); std::string stem = dot == std::string::npos || dot == 0 ? base : base.substr(0, dot); static const char* E[] = {".txt", ".bmp", ".map", "", ".t", ".TXT2"}; return stem + E[r.below(6)]; }
